@@ -36,6 +36,7 @@ type line struct {
 	RecvOK    bool   `json:"recv_ok"`
 	Opens     bool   `json:"opens"`
 	RExportEq bool   `json:"rexport_eq"`
+	OpensAll  bool   `json:"opens_all"` // honest receiver: later ciphertexts still open after a rejected (altered / wrong-aad) one
 	Note      string `json:"note"`
 }
 
@@ -267,6 +268,19 @@ func main() {
 							pt, err := opener.Open(ct0, v["aad"])
 							ln.Opens = err == nil && bytes.Equal(pt, v["pt"])
 							ln.RExportEq = bytes.Equal(opener.Export(v["ectx"], 32), sealer.Export(v["ectx"], 32))
+							if dev == "none" && ln.Opens {
+								ct1, e1 := sealer.Seal([]byte("second"), v["aad"])
+								ct2, e2 := sealer.Seal(nil, nil)
+								bad := append([]byte{}, ct1...)
+								bad[rng.Intn(len(bad))] ^= 4
+								_, ea := opener.Open(bad, v["aad"])
+								_, eb := opener.Open(ct1, []byte("other aad"))
+								_, ec := opener.Open(ct2, nil) // out of order
+								p1, e3 := opener.Open(ct1, v["aad"])
+								p2, e4 := opener.Open(ct2, nil)
+								ln.OpensAll = e1 == nil && e2 == nil && ea != nil && eb != nil && ec != nil && e3 == nil && e4 == nil &&
+									string(p1) == "second" && len(p2) == 0
+							}
 						}
 						mu.Lock()
 						o.Emit(ln)
